@@ -436,6 +436,26 @@ class AccountingMonitor(Monitor):
     def on_quiescent(self, kind):
         """World B, after the drain and the final order image: the runner accounting must follow the real state of the
         bets, i.e. the exchange's: a trade with a bet that is still live at the exchange is a live trade."""
+        if kind == "before-final-image" and hasattr(self.run, "exchange") and not any(set(plan) - {"match_on_place"} for plan in (self.run.scenario.get("faults") or {}).values()):
+            # everything has been delivered and answered (no message in flight, no task, empty queue) and the closing full
+            # image has NOT been sent yet: a runner still charged with a live trade all of whose bets are complete at the
+            # exchange is locked until something else happens to arrive
+            ex = self.run.exchange
+            for market in self.run.fw.markets:
+                by = {}
+                for o in market.blotter:
+                    by.setdefault((o.trade.strategy, o.lookup), {}).setdefault(o.trade.id, []).append(o)
+                for (strategy, lookup), trades in by.items():
+                    ctx = self._ctx(strategy, lookup)
+                    if ctx is None:
+                        continue
+                    for tid, orders in trades.items():
+                        bets = [ex.bets.get(str(o.bet_id)) if o.bet_id is not None else None for o in orders]
+                        if tid in ctx.live_trades and bets and all(b is not None and b["complete"] for b in bets) and any(not o.complete for o in orders):
+                            # observation only (see DESIGN B.3): the unchanged tree reaches this state when the order stream's
+                            # message about a bet is processed before the response that carries its bet id
+                            self.res.probes["c10.observed.quiescent_live_trade_with_every_bet_complete_at_the_exchange"] += 1
+                    self.res.probes["c10.live.quiescent_lock_checks"] += 1
         if kind != "final" or not hasattr(self.run, "exchange"):
             return
         # only in sessions without injected API faults: with lost or garbled responses the local order state may
